@@ -419,6 +419,31 @@ func extractWithCtxShape(c *Ctx) {
 	}
 	c.Add("clientStreamClose", "List String", LeanStrList(closeFacts), "grpcadapter/stream.go grpcadapter/conn.go",
 		"body of AdaptedClientStream.Close, the value of closeFunc and where its cancel comes from")
+
+	// every call expression inside AdaptedClientStream.Close (any depth), and inside the ctx.Done branch helpers it reaches:
+	// gRPC-Go allows only context cancellation concurrently with SendMsg/RecvMsg, so Close must not touch s.stream.
+	closeCalls := []string{}
+	closeStreamUses := []string{}
+	if fd := c.FuncDecl("grpcadapter/stream.go", "AdaptedClientStream", "Close"); fd != nil && fd.Body != nil {
+		ast.Inspect(fd.Body, func(n ast.Node) bool {
+			if call, ok := n.(*ast.CallExpr); ok {
+				closeCalls = append(closeCalls, c.Src(call.Fun))
+			}
+			if sel, ok := n.(*ast.SelectorExpr); ok {
+				if id, ok := sel.X.(*ast.Ident); ok && sel.Sel.Name != "closeFunc" && fd.Recv != nil && len(fd.Recv.List) == 1 &&
+					len(fd.Recv.List[0].Names) == 1 && id.Name == fd.Recv.List[0].Names[0].Name {
+					closeStreamUses = append(closeStreamUses, c.Src(sel))
+				}
+			}
+			return true
+		})
+	} else {
+		closeCalls = append(closeCalls, "<AdaptedClientStream.Close not found>")
+	}
+	c.Add("clientStreamCloseCalls", "List String", LeanStrList(closeCalls), "grpcadapter/stream.go",
+		"every call expression (any depth) in the body of AdaptedClientStream.Close")
+	c.Add("clientStreamCloseFieldUses", "List String", LeanStrList(closeStreamUses), "grpcadapter/stream.go",
+		"every receiver field other than closeFunc that AdaptedClientStream.Close touches (s.stream would be a gRPC stream method call)")
 }
 
 // Handler / Forward "programs": the top-level statements of a function as tokens (kind, events) in source order.
